@@ -257,6 +257,7 @@ impl Property for C10 {
                     });
                     for p in progs {
                         let prog = Arc::new(p);
+                        ctx.begin(|| case_json(cfg, &prog, &[]));
                         let base = match uninterrupted(cfg, &prog) {
                             Ok(b) => b,
                             Err(d) => {
@@ -310,6 +311,7 @@ impl Property for C10 {
                             if cuts_inside {
                                 ctx.out.nontrivial += 1;
                             }
+                            ctx.begin(|| case_json(cfg, &prog, &sched));
                             match run_case(cfg, &prog, &sched, Some(&base)) {
                                 Ok(o) => {
                                     ctx.outcome(o);
